@@ -1,6 +1,8 @@
 import CorsVerif.Proofs.Serve
 import CorsVerif.Proofs.Pipeline
 import CorsVerif.Proofs.Verdict
+import CorsVerif.Props.C01
+import CorsVerif.Proofs.Twins
 import CorsVerif.Proofs.Accepted
 /-
   C02 — A Fetch-compliant browser's verdict equals what the configuration means.
@@ -156,6 +158,36 @@ theorem C02_invariance (icfg : ICfg) (hwf : icfg.WF) (hrs : icfg.ReqHdrsSound) (
   rw [C02 icfg hwf hrs d1 i lines hO hM hN hL,
     C02 icfg hwf hrs d2 i _ hO hM hN (fun hne => tolerated_plain _ hne (unsafe_valid i hN))]
 
+open Browser Spec in
+/-- **C02 with the origin clause spelled out.** For an accepted configuration that does not list
+`*`, and a page whose origin is a serialised origin with a domain host (`C01_browser_parse`): the
+browser's verdict is success iff some listed pattern denotes the page's origin, credentials are
+used only if enabled, the method and the header names are allowed, private-network access only if
+enabled, and the configuration is not in no-cors-only PNA mode. -/
+theorem C02_documented_origin (ext : Ext) (hext : ∀ h info, ext.ip6 h = some info → h.head? ≠ some 42)
+    (cfg : Config) (icfg : ICfg) (acc : newInternalConfig ext cfg = .ok icfg)
+    (hns : cfg.origins.contains Validate.star = false) (dbg : Bool) (i : Intent) (lines : List Bytes)
+    (d : DocPattern) (hd1 : docScheme d.scheme = true) (hd2 : docDomain d.labels = true) (hd3 : docPortOK d.port = true)
+    (hd4 : d.wildcard = false) (hd5 : d.port ≠ .any) (hio : i.origin = d.render)
+    (hM : Headers.isValid (methodN i) = true) (hN : ∀ n ∈ i.headerNames, Headers.isValid n = true)
+    (hL : unsafeNames i ≠ [] → Tolerated (unsafeNames i) lines) :
+    verdict (fun r => Serve.serve icfg dbg r HdrMap.empty) i lines =
+      ((parsedPatterns ext cfg.origins).any (fun p => Spec.denotes p d.origin)
+        && (!i.creds || icfg.credentialed) && !icfg.pnaNoCors
+        && (safelisted (methodN i) || icfg.allowAnyMethod || icfg.allowedMethods.contains (methodN i))
+        && (unsafeNames i).all (fun n =>
+              icfg.allowedReqHdrs.contains n
+              || (icfg.asteriskReqHdrs && (n != Spec.authorization || icfg.credentialed || icfg.allowAuthorization)))
+        && (!i.pna || icfg.pna)) := by
+  have hparse := C01_browser_parse d hd1 hd2 hd3 hd4 hd5
+  have hO : (Lex.parse i.origin).isSome = true := by rw [hio, hparse]; rfl
+  rw [C02_accepted ext cfg icfg acc dbg i lines hO hM hN hL]
+  unfold permits
+  have hne : icfg.tree.isEmpty = false := by
+    rw [accepted_tree_isEmpty ext cfg icfg acc, hns]
+  rw [hne, hio, C01_browser ext hext cfg icfg acc hns d hd1 hd2 hd3 hd4 hd5]
+  simp
+
 /-! ### Non-vacuity -/
 
 /-- A page on https://a.example asks for PUT with X-Foo and Authorization, with credentials. -/
@@ -186,5 +218,6 @@ example : ¬ Browser.Tolerated (Browser.unsafeNames exIntent) [Spec.b "authoriza
 #print axioms C02
 #print axioms C02_accepted
 #print axioms C02_invariance
+#print axioms C02_documented_origin
 
 end Cors
